@@ -1,0 +1,29 @@
+//go:build verif
+
+package tmengine
+
+import (
+	"context"
+	"log/slog"
+
+	"github.com/gordian-engine/gordian/tm/tmengine/internal/tmeil"
+	"github.com/gordian-engine/gordian/tm/tmengine/internal/tmmirror"
+)
+
+// Re-exports of the internal mirror for the external verification harness.
+// This file adds no behaviour; it is only compiled with the "verif" build tag.
+
+type (
+	VerifMirror       = tmmirror.Mirror
+	VerifMirrorConfig = tmmirror.MirrorConfig
+
+	VerifMRoundEntrance         = tmeil.StateMachineRoundEntrance
+	VerifMRoundAction           = tmeil.StateMachineRoundAction
+	VerifMScopedSignature       = tmeil.ScopedSignature
+	VerifMRoundEntranceResponse = tmeil.RoundEntranceResponse
+	VerifMRoundView             = tmeil.StateMachineRoundView
+)
+
+func VerifNewInternalMirror(ctx context.Context, log *slog.Logger, cfg VerifMirrorConfig) (*VerifMirror, error) {
+	return tmmirror.NewMirror(ctx, log, cfg)
+}
